@@ -821,10 +821,282 @@ def _threads(ck, src):
                 "the selection does not depend on thread count", {"mesh": src.m["name"], "lat": lat}, res)
 
 
+# ------------------------------------------------------------------------------------------------- pre-materialised sources
+# tables a source may SHIP (Grid.from_topology keyword); node_edge_connectivity cannot be built by uxarray at all
+SHIPPABLE = ["node_face_connectivity", "edge_face_connectivity", "face_face_connectivity", "face_edge_connectivity",
+             "node_edge_connectivity"]
+ROW_SETS = ["node_face_connectivity", "face_face_connectivity"]           # compared row by row as sorted lists
+SCALARS = ["n_max_face_edges", "n_max_face_faces", "n_max_node_faces"]
+LON_DEG = ["face_lon", "edge_lon"]
+_FRESH = {}
+
+
+def _lattice_mesh():
+    """3 x 3 lattice of nodes: three quads + one cell split into two triangles (mixed sizes, padding, interior node 4)"""
+    lon = [-15.0, -5.0, 5.0] * 3
+    lat = [5.0] * 3 + [15.0] * 3 + [25.0] * 3
+    return mg.mk("lattice3x3_quads_tris", lon, lat, [[0, 1, 4, 3], [1, 2, 5, 4], [3, 4, 7, 6], [4, 5, 8], [4, 8, 7]])
+
+
+def _pad(rows, width=None):
+    width = max([len(r) for r in rows] + [1]) if width is None else width
+    out = np.full((len(rows), width), FILL, dtype=np.int64)
+    for i, r in enumerate(rows):
+        out[i, :len(r)] = r
+    return out
+
+
+def _shipped_tables(src):
+    """oracle incidence tables of the SOURCE (own edge numbering = the fresh source's), to be shipped with the source"""
+    eidx = {p: e for e, p in enumerate(src.edges)}
+    fe = [[eidx[p] for p in pr] for pr in src.pairs]
+    ef = [sorted(src.faces_of_pair[p]) for p in src.edges]
+    ff = [[(set(src.faces_of_pair[p]) - {f}).pop() for p in pr if len(src.faces_of_pair[p]) == 2] for f, pr in enumerate(src.pairs)]
+    return {
+        "edge_node_connectivity": np.array(src.edges, dtype=np.int64),
+        "node_face_connectivity": _pad([sorted(src.faces_of_node[n]) for n in range(src.nn)]),
+        "edge_face_connectivity": _pad(ef, 2),
+        "face_face_connectivity": _pad(ff, src.faces.shape[1]),
+        "face_edge_connectivity": _pad(fe, src.faces.shape[1]),
+        "node_edge_connectivity": _pad([sorted(e for e, p in enumerate(src.edges) if n in p) for n in range(src.nn)]),
+    }
+
+
+def _pre_histories(src, tier):
+    """(name, attributes read on the source before slicing, tables shipped with the source)"""
+    out = [("none", [], [])]
+    out += [(a, [a], []) for a in DERIVED if src.ref_value(a)[0] == "ok" and (a != "bounds" or _READY["jit"])]
+    out.append(("all", [a for a in DERIVED if a != "bounds" or _READY["jit"]], []))
+    if src.edges_ok and all(len(v) <= 2 for v in src.faces_of_pair.values()):
+        out += [("shipped_" + t, [], [t]) for t in SHIPPABLE]
+        out.append(("shipped_all", [], list(SHIPPABLE)))
+    return out
+
+
+def _fresh_rebuild(sub):
+    """a grid built from nothing but the slice's own node_lon / node_lat / face_node_connectivity"""
+    return ux.Grid.from_topology(node_lon=np.array(sub.node_lon.values, float), node_lat=np.array(sub.node_lat.values, float),
+                                 face_node_connectivity=np.array(sub.face_node_connectivity.values), fill_value=FILL)
+
+
+def _sorted_rows(a):
+    return [sorted(r) for r in _rows(a)]
+
+
+def _check_fresh(ck, src, sub, der, inputs, base_keys, suffix):
+    """every derived quantity of the slice == the same quantity of a grid freshly built from the slice's own three defining
+    arrays (modulo the numbering / orientation of edges, which the slice inherits from the source).  returns the fired keys"""
+    fired = set()
+
+    def bad(attr, how, what, observed=None, expected=None):
+        k = f"fresh_rebuild:{attr}:{how}"
+        fired.add(k)
+        if base_keys is not None and k in base_keys:
+            return
+        ck.fail(k + suffix, f"{attr} of the slice {what}",
+                "the result is a fully functional Grid: every derived quantity equals what a grid built from the slice's own "
+                "node_lon / node_lat / face_node_connectivity derives (no table carrying source-grid indices survives)",
+                inputs, observed, expected)
+
+    ok = {a: o[1] for a, o in der.items() if o[0] == "ok"}
+    # the rebuild depends on the slice's three defining arrays only: computed once per distinct slice
+    ck_ = (sub.node_lon.values.tobytes(), sub.node_lat.values.tobytes(), sub.face_node_connectivity.values.tobytes(),
+           sub.face_node_connectivity.values.shape)
+    if ck_ not in _FRESH:
+        if len(_FRESH) > 64:
+            _FRESH.clear()
+        fresh = _fresh_rebuild(sub)
+        _FRESH[ck_] = {}
+        for attr in DERIVED:
+            try:
+                v = getattr(fresh, attr)
+                _FRESH[ck_][attr] = np.array(getattr(v, "values", v))
+            except Exception:  # noqa: the fresh rebuild cannot do it either -> nothing to compare
+                pass
+    want = _FRESH[ck_]
+    perm = None
+    if "edge_node_connectivity" in ok and "edge_node_connectivity" in want:
+        sp = [tuple(sorted((int(a), int(b)))) for a, b in ok["edge_node_connectivity"]]
+        fp = {tuple(sorted((int(a), int(b)))): e for e, (a, b) in enumerate(want["edge_node_connectivity"])}
+        if len(set(sp)) == len(sp) == len(fp) and set(sp) == set(fp):
+            perm = np.array([fp[p] for p in sp], dtype=int)
+        else:
+            bad("edge_node_connectivity", "differs", "is not the edge set of the fresh rebuild", len(sp), len(fp))
+    for attr, got in ok.items():
+        if attr not in want or attr == "edge_node_connectivity":
+            continue
+        ck.cases += 1
+        w = want[attr]
+        edgewise = attr in BY_EDGE or attr in ("edge_face_connectivity", "edge_face_distances")
+        if (edgewise or attr in ("face_edge_connectivity", "hole_edge_indices")) and perm is None:
+            continue
+        if attr in SCALARS:
+            same = int(got) == int(w)
+        elif attr in ROW_SETS:
+            same = _sorted_rows(got) == _sorted_rows(w)
+        elif attr == "face_edge_connectivity":
+            same = [sorted(int(perm[e]) if 0 <= e < len(perm) else -1 for e in r) for r in _rows(got)] == _sorted_rows(w)
+        elif attr == "hole_edge_indices":
+            g_ = [int(v) for v in got]
+            same = all(0 <= e < len(perm) for e in g_) and sorted(int(perm[e]) for e in g_) == sorted(int(v) for v in w)
+        elif attr == "antimeridian_face_indices":
+            same = sorted(int(v) for v in got) == sorted(int(v) for v in w)
+        elif attr == "edge_face_connectivity":
+            same = got.shape == w.shape and _sorted_rows(got) == _sorted_rows(w[perm])
+        elif got.shape != w.shape:
+            same = False
+        else:
+            if edgewise:
+                w = w[perm]
+            if attr == "edge_node_z":
+                got, w = np.sort(got, axis=1), np.sort(w, axis=1)
+            if attr in LON_DEG:
+                same = bool(np.max(np.abs((got - w + 180.0) % 360.0 - 180.0), initial=0.0) <= 1e-9)
+            elif got.dtype.kind == "f" or w.dtype.kind == "f":
+                same = bool(np.allclose(got, w, rtol=1e-9, atol=1e-9, equal_nan=True))
+            else:
+                same = bool(np.array_equal(got, w))
+        if not same:
+            bad(attr, "differs", "differs from the value a freshly built grid with the same nodes and faces derives", got, w)
+    # a table uxarray cannot build itself may be absent from the slice, but if it is there it has to describe the slice
+    if perm is not None:
+        try:
+            nec = np.array(sub.node_edge_connectivity.values)
+        except Exception:  # noqa: dropped - fine
+            nec = None
+        if nec is not None:
+            ck.cases += 1
+            sp = [(int(a), int(b)) for a, b in ok["edge_node_connectivity"]]
+            exp = [sorted(e for e, p in enumerate(sp) if n in p) for n in range(int(sub.n_node))]
+            if _sorted_rows(nec) != exp:
+                bad("node_edge_connectivity", "differs", "is kept but does not list the slice's own edges at each node", nec, exp)
+    return fired
+
+
+def _pre_routes(src, rng, tier):
+    """one selection per family, preferring proper sub-selections (so that source and result numbering differ).
+    returns [(route label, selection, via a UxDataArray?)]"""
+    sels = [s for s in _selections(src, rng, tier) if s["expected"]]
+    prefer = {"isel_n_face": "unsorted_list", "isel_n_node": "single_element", "isel_n_edge": "single_element"}
+    fams = {}
+    for s in sels:
+        t = s["kind"].split(":")
+        fam = t[0] if t[0].startswith("isel") or t[0] == "constant_latitude" else ":".join(t[:2])
+        proper = len(s["expected"]) < src.nf
+        score = (proper, prefer.get(fam) == t[-1])
+        if fam not in fams or score > fams[fam][0]:
+            fams[fam] = (score, s)
+    out = []
+    for fam in sorted(fams, key=lambda f: (not f.startswith("isel"), f)):      # isel_n_edge, isel_n_face, isel_n_node, accessors
+        out.append(("Grid." + fam, fams[fam][1], False))
+        if fam in ("isel_n_face", "nearest_neighbor:face_centers"):
+            out.append(("UxDataArray." + fam, fams[fam][1], True))
+    out.sort(key=lambda r: r[0] != "Grid.isel_n_face")                         # stable: the plain face selection first
+    return out
+
+
+class _PreChecker:
+    """failure keys of the pre-materialisation scenario: '<check>:<attr>:<how>@prematerialised:<history>' - the route (call) is
+    part of the key only for history 'none' (where the call itself is the scenario) and otherwise goes to the inputs: a key is
+    reported once (first route), and 'all' / 'shipped_all' only if no single table of that group produced the same failure"""
+
+    def __init__(self, ck):
+        self.ck, self.cases, self.distinct, self.seen, self.single = ck, 0, set(), set(), set()
+
+    def fail(self, key, what, violated, inputs, observed=None, expected=None):
+        base, hist = key.split("@prematerialised:")
+        group = "shipped" if hist.startswith("shipped_") else "read"
+        if key in self.seen or (hist in ("all", "shipped_all") and (base, group) in self.single):
+            return
+        if hist not in ("none", "all", "shipped_all"):
+            self.single.add((base, group))
+        self.seen.add(key)
+        self.ck.fail(key, what, violated, inputs, observed, expected)
+
+
+def _pre_run(ck, src, route, sel, via_data, hist, base):
+    name, attrs, shipped = hist
+    suffix = (f":{route}" if name == "none" else "") + f"@prematerialised:{name}"
+    inputs = {"mesh": src.m["name"], "call": route, "selection": sel["kind"], "args": sel["args"],
+              "read_on_source_before": attrs if name != "all" else "every derived attribute", "shipped_with_source": shipped}
+    ck.cases += 1
+    ck.distinct.add((src.m["name"], route, name))
+    kw = {}
+    if shipped:
+        tabs = _shipped_tables(src)
+        kw = {t: tabs[t].copy() for t in shipped}
+        if set(shipped) & {"face_edge_connectivity", "edge_face_connectivity", "node_edge_connectivity"}:
+            kw["edge_node_connectivity"] = tabs["edge_node_connectivity"].copy()     # edge ids need their edge table
+    g = grid_of(src.m, **kw)
+    for a in attrs:
+        if src.ref_value(a)[0] == "ok":
+            getattr(g, a)
+    try:
+        if via_data:
+            arr = ux.UxDataArray(np.arange(src.nf, dtype=float), dims=["n_face"], uxgrid=g, name="v")
+            sub = sel["data"](arr).uxgrid
+        else:
+            sub = sel["grid"](g)
+    except Exception as e:  # noqa
+        k = f"raises:{type(e).__name__}"
+        if base is None or k not in base:
+            ck.fail(k + suffix, f"slicing a source with pre-materialised tables raises {type(e).__name__}: {str(e)[:160]}",
+                    "returns a grid whose faces are exactly the selected source faces", inputs)
+        return {k}
+    idn = _identify(src, sub)
+    if any(f < 0 for f in idn["face_ids"]) or set(idn["face_ids"]) != sel["expected"]:
+        k = "faces_exact"
+        if base is None or k not in base:
+            ck.fail(k + suffix, "the slice does not consist of the selected source faces",
+                    "faces are exactly the selected source faces", inputs, idn["face_ids"], sorted(sel["expected"]))
+        return {k}
+    der = _derived(src, sub, idn)
+    fired = _check_derived(ck, src, sub, idn, der, inputs, sel["kind"], base, suffix)
+    fired |= _check_fresh(ck, src, sub, der, inputs, base, suffix)
+    return fired
+
+
+def _prematerialised(ck, tier, seed):
+    """slices of sources on which derived tables already exist (read before, each alone and all together, or shipped with the
+    source): every derived quantity of the slice must equal the independent oracle (_check_derived) and what a grid
+    freshly built from the slice's own node_lon / node_lat / face_node_connectivity derives (_check_fresh)"""
+    rng = random.Random(seed * 7919 + 97)
+    ck0, ck = ck, _PreChecker(ck)
+    meshes = [_lattice_mesh()]
+    if tier == "thorough":
+        meshes += [mg.quad_patch(3, 2, lon0=165.0, lat0=-15.0)] + [m for m in mg.small_meshes() if m["n_face"] >= 3][2:6] \
+            + mg.closed_meshes()[:2]
+    n = 0
+    for m in meshes:
+        src = Source(m)
+        routes = _pre_routes(src, rng, tier)
+        hists = _pre_histories(src, tier)
+        for route, sel, via_data in routes:
+            base = None
+            for hist in hists:
+                # quick tier: every history on Grid.isel(n_face); the index tables alone / everything / everything shipped on
+                # Grid.isel(n_node) and UxDataArray.isel(n_face); everything / everything shipped on all other routes
+                # (those without the 'none' run: a failure that does not need pre-materialisation is then reported under 'all')
+                isel3 = route in ("Grid.isel_n_face", "Grid.isel_n_node", "UxDataArray.isel_n_face")
+                if tier == "quick" and route != "Grid.isel_n_face" and hist[0] not in ("all", "shipped_all") and not (
+                        isel3 and (hist[0] == "none" or hist[0] in CONN)):
+                    continue
+                fired = _pre_run(ck, src, route, sel, via_data, hist, base)
+                n += 1
+                if hist[0] == "none":
+                    base = fired
+    ck0.cases += ck.cases
+    ck0.distinct |= ck.distinct
+    return n, len(meshes)
+
+
 def subsets(tier, seed):
     _setup(tier)
     rng = random.Random(seed * 1009 + 9)
     ck = Checker()
+    import time
+    t0 = time.time()
+    n_pre, n_pre_meshes = _prematerialised(ck, tier, seed)     # first: not subject to the safety net below
     meshes = mg.catalogue(tier, seed)
     if tier == "quick":
         # a spread of the catalogue that fits the time budget
@@ -838,10 +1110,9 @@ def subsets(tier, seed):
         meshes = [m for m in meshes if not m["name"].startswith("rand_")] + rand[:30]
     samples = []
     hist_names = [h for h in HISTORIES if h != "none" and (h != "bounds" or _READY["jit"])]
-    import time
-    t0, done = time.time(), 0
+    done = 0
     for mi, m in enumerate(meshes):
-        if time.time() - t0 > (30 if tier == "quick" else 420):
+        if time.time() - t0 > (36 if tier == "quick" else 480):
             break                       # safety net only; the mesh counts are chosen to stay below it
         done += 1
         src = Source(m)
@@ -864,7 +1135,8 @@ def subsets(tier, seed):
                 samples.append({"mesh": m["name"], "call": sel["kind"], "args": sel["args"]})
             # histories: a few selections per mesh
             if base is not None and (si < 2 or tier == "thorough" and si % 10 == 0):
-                hs = hist_names if tier == "thorough" else rng.sample(hist_names, 3) + ["all"]
+                # (quick: 2 random histories + 'all'; every single attribute is covered systematically by _prematerialised)
+                hs = hist_names if tier == "thorough" else rng.sample(hist_names, 2) + ["all"]
                 for h in dict.fromkeys(hs):
                     sig = _run_selection(ck, src, sel, h, False, rng, tier, base_keys=base["_fired"])
                     if sig is None:
@@ -897,6 +1169,11 @@ def subsets(tier, seed):
              "circles, k-nearest for nodes / face centres / edge centres, constant latitudes (node latitudes, between, random); "
              "face/node/edge data of rank 1..3(4) incl. grid dimension first and a coordinate on the grid dimension; "
              f"{len(hist_names)} pre-materialisation histories on 2 selections per mesh; subset of subset; shipped edge table; "
+             f"pre-materialised sources: {n_pre} slices of {n_pre_meshes} fixed mesh(es) (3x3 lattice of quads + triangles"
+             + (", antimeridian quads, small + closed meshes" if tier == "thorough" else "") + ") with every derived attribute read "
+             "alone / all together / incidence tables shipped with the source before Grid.isel, subset.*, cross_section, "
+             "UxDataArray.isel, each derived quantity compared with the oracle and with a grid rebuilt from the slice's own "
+             "node_lon / node_lat / face_node_connectivity; "
              + ("JIT on, bounds included, thread counts 1/2/max" if _READY["jit"] else
                 "NUMBA_DISABLE_JIT=1: Grid.bounds is not computable at all without JIT and is skipped; thread counts not varied")
              + "; edge_face_distances only for computability (values are C16's subject)")
